@@ -165,7 +165,8 @@ impl<'c, KD: Kind, const N: usize> MapEng<'c, KD, N> {
                     (Ok(Ret::Rejected), OP_CHECKED) => {
                         cx.bump(S::checked_none);
                     }
-                    (Err(Pk::Overflow), OP_INSERT | OP_INSERT_KV) => {
+                    (Err(p), OP_INSERT | OP_INSERT_KV) if *p != Pk::Injected => {
+                        // any panic raised by the library is a rejection (the message is not part of the statement)
                         cx.bump(S::lib_panics);
                         self.lib_panicked = true;
                     }
@@ -291,7 +292,7 @@ impl<'c, KD: Kind, const N: usize> MapEng<'c, KD, N> {
                     }
                 }
                 (Ok(None), None) => {}
-                (Err(Pk::NoEntry), None) if indexing => {
+                (Err(p), None) if indexing && *p != Pk::Injected => {
                     cx.bump(S::index_panics);
                     cx.bump(S::lib_panics);
                     self.lib_panicked = true;
